@@ -71,8 +71,17 @@ def check(ctx, src):
         ctx.check(rets and all(r.value is None or (isinstance(r.value, ast.Constant) and r.value.value is None) for r in rets) and isinstance(f.body[-1], ast.Return), "NONE-PROP", f"{HR}|{meth}|returns None",
                   f"the handler of {ch!r} does not return None on every path", HR, f.lineno, witness="a comment / discarded form contributes a model", detail="return None")
     lc = rq.handlers[";"][2]
-    ctx.check(norm(lc.body[0]) == "any((c == '\\n' for c in self.chars(eof_ok=True)))", "NONE-PROP", f"{HR}|line_comment|terminator", f"a comment is consumed by `{norm(lc.body[0])}`; it must end at a newline only",
-              HR, lc.lineno, witness="foo ; 10%\\r20%\\n bar  reads an extra form 20%", detail="until \\n")
+    # which characters end a comment: the constants the characters of self.chars(...) are compared with in line_comment
+    cmp_consts = set()
+    for n in ast.walk(lc):
+        if isinstance(n, ast.Compare) and len(n.ops) == 1 and isinstance(n.ops[0], (ast.Eq, ast.NotEq, ast.In, ast.NotIn)) and isinstance(n.left, ast.Name):
+            r = n.comparators[0]
+            if isinstance(r, ast.Constant) and isinstance(r.value, str):
+                cmp_consts |= set(r.value) if isinstance(n.ops[0], (ast.In, ast.NotIn)) else {r.value}
+            elif isinstance(r, (ast.Tuple, ast.List, ast.Set)) and all(isinstance(e, ast.Constant) and isinstance(e.value, str) for e in r.elts):
+                cmp_consts |= {e.value for e in r.elts}
+    ctx.decide_tt("NONE-PROP", f"{HR}|line_comment|terminator", None if not cmp_consts else cmp_consts == {"\n"}, f"a comment ends at {sorted(cmp_consts)}; it must end at a newline only",
+               HR, lc.lineno, witness="foo ; 10%\\r20%\\n bar  reads an extra form 20%", detail="until \\n")
     d = rq.handlers["#_"][2]
     ctx.check(norm(pyq.body_without_doc(d)[0]) == "self.parse_one_form()", "NONE-PROP", f"{HR}|discard|consumes one form", "#_ must read exactly one form and drop it", HR, d.lineno, detail="parse_one_form()")
     pof = rq.methods["parse_one_form"][1]
